@@ -48,6 +48,17 @@ claim("C04", "exploration",
       TB + " Near-ties (1e-9 relative) adopted; degenerate zero-variance estimation windows not judged.",
       "DESIGN.md 4 (C04)")
 
+claim("C03", "exploration",
+      "runtime monitoring: index-range exponential-histogram specification stepped in lock-step with the real ADWIN / "
+      "ADWINAccuracy; statistics recomputed from the raw last-W inputs after every update",
+      "Hundreds (thousands thorough) of generated streams with many cuts each over delta, max_buckets (incl. 1), check "
+      "period, window thresholds and both bounds; after every update the cut decision, mean(), variance(), "
+      "retraining_recs and total_samples of the real object are compared with an independent specification that stores "
+      "only bucket index ranges and recomputes every statistic from the raw inputs; ADWINAccuracy is driven with label "
+      "pairs and must equal ADWIN with the constructor parameters it was given.  Sampled, not exhaustive.",
+      TB + " Tolerances scaled to the magnitude of the running totals; near-ties of the epsilon-cut adopted.",
+      "DESIGN.md 4 (C03)")
+
 NOT_YET = "check not built yet in this revision of /verif (planned: see DESIGN.md section 4); nothing is claimed for it"
 
 
